@@ -55,6 +55,11 @@ func TestC16Flush(t *testing.T) {
 		wire0 := len(a.Out.Wire)
 		sum, calls := 0, 0
 		refused := -1
+		// on every second record the writing party reads a record of the
+		// opposite direction while its own is only partly out (the two
+		// directions of a connection are independent: a gRPC connection
+		// reads and writes at once)
+		rev := -1
 		for {
 			st := wm.VerifState()
 			before := len(a.Out.Wire)
@@ -83,6 +88,17 @@ func TestC16Flush(t *testing.T) {
 					refused = 1
 				}
 			}
+			if rev < 0 && nrec%2 == 0 {
+				back := streamOf(3 + nrec%40)
+				rev = 0
+				if e := rm.WriteMessage(back); e == nil {
+					if _, e = rm.Flush(b); e == nil {
+						if got, e := wm.ReadMessage(a); e == nil && bytes.Equal(got, back) {
+							rev = 1
+						}
+					}
+				}
+			}
 			if calls > 50 {
 				break
 			}
@@ -95,7 +111,7 @@ func TestC16Flush(t *testing.T) {
 		}
 		enc.Encode(map[string]any{"op": "flushEnd", "L": L, "sum": sum,
 			"emitted": len(a.Out.Wire) - wire0, "peerOK": peerOK,
-			"refused": refused, "calls": calls,
+			"refused": refused, "calls": calls, "rev": rev,
 			"pending": st.PendingHdr + st.PendingBody})
 	}
 	sizes := []int{0, 1, 2, 15, 16, 17, 100}
@@ -164,6 +180,7 @@ func TestC16Frag(t *testing.T) {
 	enc := json.NewEncoder(f)
 	r := rng(1617)
 	type vr struct{ cMin, cMax, sMin, sMax byte }
+	nStuck := 0
 	for _, pattern := range []string{"XX", "KK"} {
 		for _, v := range []vr{{0, 0, 0, 0}, {1, 1, 1, 1}, {0, 2, 0, 2}, {2, 2, 2, 2}, {0, 2, 0, 1}, {1, 2, 0, 2}} {
 			if pattern == "KK" && (v.cMax < 2 || v.sMax < 2) {
@@ -189,7 +206,16 @@ func TestC16Frag(t *testing.T) {
 						return k
 					}
 					a.Frag, b.Frag = frag, frag
-					res := runMachines(p, a, b)
+					// (once one handshake has been found stuck the
+					// run is lost anyway: the others get less time)
+					patience := 25 * time.Second
+					if nStuck > 0 {
+						patience = 1500 * time.Millisecond
+					}
+					res, stuck := runMachinesGuarded(p, a, b, patience)
+					if stuck {
+						nStuck++
+					}
 					es := func(e error) string {
 						if e == nil {
 							return ""
